@@ -192,14 +192,42 @@ def rec_result(res):
         for k, v in rec_model(m).items():
             key = f'model{i}.' + (k[4:] if k.startswith('arr:') else k)
             r[('arr:' + key) if k.startswith('arr:') else key] = v
-    for name in ('test_all', 'test_pairwise', 'test_zero', 'test_noise'):
+    import warnings
+    for tt in ('t-test', 'bootstrap', 'ranksum'):
+        for name in ('test_all', 'test_pairwise', 'test_zero', 'test_noise'):
+            tag = name if tt == 't-test' else f'{name}[{tt}]'
+            try:
+                with warnings.catch_warnings():
+                    warnings.simplefilter('ignore')
+                    out = getattr(res, name)(test_type=tt)
+                outs = out if isinstance(out, tuple) else (out,)
+                for j, x in enumerate(outs):
+                    r[f'arr:{tag}[{j}]'] = np.array(x, dtype=float)
+            except Exception as e:
+                r[tag] = 'raised ' + type(e).__name__
+    # the derived quantities a report or plot reads from a Result
+    for tag, call in (('get_means', lambda: res.get_means()), ('get_sem', lambda: res.get_sem()),
+                      ('get_model_var', lambda: res.get_model_var()), ('get_noise_ceil', lambda: res.get_noise_ceil()),
+                      ('get_ci90', lambda: res.get_ci(0.9)), ('get_ci90[bootstrap]', lambda: res.get_ci(0.9, test_type='bootstrap')),
+                      ('get_errorbars', lambda: res.get_errorbars()), ('get_errorbars[ci]', lambda: res.get_errorbars('ci'))):
         try:
-            out = getattr(res, name)()
-            outs = out if isinstance(out, tuple) else (out,)
-            for j, x in enumerate(outs):
-                r[f'arr:{name}[{j}]'] = np.array(x, dtype=float)
+            with warnings.catch_warnings():
+                warnings.simplefilter('ignore')
+                out = call()
+            if out is None:
+                r[tag] = None
+            else:
+                outs = out if isinstance(out, (tuple, list)) else (out,)
+                for j, x in enumerate(outs):
+                    r[f'arr:{tag}[{j}]'] = None if x is None else np.array(x, dtype=float)
         except Exception as e:
-            r[name] = 'raised ' + type(e).__name__
+            r[tag] = 'raised ' + type(e).__name__
+    try:
+        with warnings.catch_warnings():
+            warnings.simplefilter('ignore')
+            r['summary'] = res.summary()
+    except Exception as e:
+        r['summary'] = 'raised ' + type(e).__name__
     return r
 
 
